@@ -121,6 +121,9 @@ def run(ob, scratch):
         return run_leaf_set(ob, scratch)
     if ob['params'].get('kernel') == 'tree_get':
         return run_tree_get(ob, scratch)
+    if ob['params'].get('kernel') in ('tree_set', 'tree_range'):
+        from engine import llsym_tree
+        return getattr(llsym_tree, 'run_' + ob['params']['kernel'])(ob, scratch)
     t0 = time.time()
     P = ob['params']
     fam, kernel, n = P['family'], P['kernel'], P['n']
